@@ -525,7 +525,7 @@ func htmlDeepFaults(b *base, emit func(desc string, data, neutral []byte)) {
 	for _, e := range []struct {
 		at, unit string
 		depth    int
-	}{{"<ul>", "<ul><li>", 5000}, {"<p>", "<div>", 20000}, {"<table>", "<table><tr><td>", 3000}, {"<body>", "<blockquote>", 10000}, {"<p>", "<span><b>", 10000}} {
+	}{{"<ul>", "<ul><li>", 5000}, {"<p>", "<div>", 20000}, {"<table>", "<table><tr><td>", 3000}, {"<body>", "<blockquote>", 10000}, {"<p>", "<span><b>", 10000}, {"<p>", "<div>", 120000}} {
 		i := strings.Index(s, e.at)
 		if i < 0 {
 			continue
